@@ -957,3 +957,45 @@ func ruleCommitCheckUnderLock(h *H, rule string) {
 		h.Anchor(rule, "reads of the commit offset in the WaitForCommitOffsetAsync implementation")
 	}
 }
+
+// ruleCommittedEntryAlwaysApplied: the leader applies an entry to its DB only in the
+// success continuation of its commit wait. Once that continuation runs the entry is
+// committed: followers apply it and every replay applies it. The continuation therefore
+// has to reach the apply call on every path — a shortcut (a cancelled request context, a
+// closed stream, "nobody is waiting for the answer") makes the leader skip an entry and
+// stamp the next one over the gap.
+func ruleCommittedEntryAlwaysApplied(h *H, rule string) {
+	h.Rule(rule, "K1", "the success continuation of the leader's commit wait reaches kv.DB.ProcessWrite on every path (no early return before the apply)", 1)
+	worker := writeWorker(h, rule)
+	if worker == nil {
+		return
+	}
+	n := 0
+	for _, s := range h.P.AllCalls(func(f *ssa.Function) bool { return regionRoot(f) == worker }, dbProcessWrite) {
+		cc := enclosingCommitContinuation(h, s.Fn)
+		if cc.Problem != "" || cc.OkFn == nil {
+			continue // R01d reports an apply site outside the continuation
+		}
+		n++
+		ok := cc.OkFn
+		h.Fn(ir.FuncName(ok))
+		applies := func(in ssa.Instruction) bool {
+			ci, isCall := in.(ssa.CallInstruction)
+			return isCall && h.P.CallStaticallyReaches(ci, h.P.MatchPred(dbProcessWrite))
+		}
+		bad := ""
+		var w []int
+		ir.Instrs(ok, func(in ssa.Instruction) {
+			if _, isRet := in.(*ssa.Return); isRet && bad == "" && in.Block() != ok.Recover {
+				if pass, path := ir.MustPass(ok, nil, in, applies); !pass {
+					bad = "the continuation that runs once the entry is committed can return without applying it: the leader's DB skips an entry that every follower and every replay applies, and the next entry stamps its commit offset over the gap"
+					w = path
+				}
+			}
+		})
+		h.Verdict(bad == "", rule, "committed entry applied in "+ir.FuncName(ok), h.pos(s.Call), "every path of the continuation applies the entry", bad, witness(w))
+	}
+	if n == 0 {
+		h.Anchor(rule, "the apply call inside the commit continuation of the leader write worker")
+	}
+}
